@@ -400,4 +400,16 @@ theorem sound_pinned_witness :
     handlerInvocation (some g) (.pos 0) = .error (.rpc (-32602)) ∧
     handlerInvocation (some g) (.named []) = .error (.rpc (-32602)) := by decide
 
+/-- F16 is the *only* difference: on every handler without a keyword-only parameter lacking a
+    default the pinned function is the repaired function, so all theorems above hold for the
+    pinned code on those handlers. -/
+theorem pinned_agrees_without_required_kwonly (h : Handler) (args : Args)
+    (hk : reqKw h.sig = []) :
+    handlerInvocationPinned (some h) args = handlerInvocation (some h) args :=
+  handlerInvocationPinned_eq (some h) args (by intro h' hh; cases hh; exact hk)
+
+example :
+    let h : Handler := ⟨[⟨.pk, 0, false⟩, ⟨.ko, 1, true⟩], []⟩
+    reqKw h.sig = [] ∧ handlerInvocationPinned (some h) (.pos 1) = .ok (.pos 1) := by decide
+
 end Aiorpcx.C19
